@@ -35,7 +35,7 @@ class HistSim(Sim):
               "reuse_of_differentiated_node", "no_reset_between_calls", "reset_between_calls", "sweep_under_retain_ctx",
               "unreachable_tensor_with_grad", "fault_mid_sweep", "retry_after_fault", "rejected_backward", "repeat_same_root",
               "zero_via_tensor", "zero_via_module", "zero_via_optimizer", "forward_fault", "no_grad_span", "nonfinite_upstream_gradient", "same_op_same_geometry_by_second_user",
-              "batch_norm_with_running_statistics", "same_batch_norm_layer_used_by_two_graphs", "soak_prune", "optimizer_step_between_backward_calls", "step_without_reset_then_more_backward", "module_parameter_added_after_use", "module_parameter_replaced_after_use"]
+              "batch_norm_with_running_statistics", "same_batch_norm_layer_used_by_two_graphs", "soak_prune", "second_optimizer_over_same_layout", "optimizer_step_between_backward_calls", "step_without_reset_then_more_backward", "module_parameter_added_after_use", "module_parameter_replaced_after_use"]
     RULE = ("one run = a seeded history of build/backward/retain/reset/fault events over shared leaves; distinct = hash of the event-kind "
             "sequence with, per backward, the root's role (fresh/former root/former interior/leaf) and whether retained nodes were crossed; "
             "non-trivial = at least two accepted backward calls")
@@ -106,7 +106,19 @@ class HistSim(Sim):
                 evs.append({"k": "setup_module", "params": mp})
             op = [i for i in leaves if rng.random() < 0.6]
             if op:
-                evs.append({"k": "setup_opt", "params": op, "kind": rng.choice(["SGD", "SGDm", "SGDm", "Adam"])})
+                kind = rng.choice(["SGD", "SGDm", "SGDm", "Adam"])
+                evs.append({"k": "setup_opt", "params": op, "kind": kind})
+                if rng.random() < 0.3:
+                    # a second network of the SAME architecture with its own optimizer (online / target net, ensemble members): parameter
+                    # lists of equal layout, nothing shared
+                    nid = st.next_id
+                    twins = []
+                    for n_, i in enumerate(op):
+                        t = st.T[i]
+                        evs.append({"k": "leaf", "id": nid + n_, "data": enc(small_values(rng, t.data.shape, np.float64, -2, 2, avoid_zero=True).astype(t.data.dtype)),
+                                    "rg": bool(st.meta[i]["rg"]), "wrap": st.meta[i]["wrap"], "actor": 0})
+                        twins.append(nid + n_)
+                    evs.append({"k": "setup_opt", "params": twins, "kind": kind, "second": True})
             if evs:
                 st.pending.extend(evs[1:])
                 return evs[0]
@@ -296,6 +308,8 @@ class HistSim(Sim):
             vias.append("module")
         if st.opt is not None:
             vias.append("optimizer")
+        if getattr(st, "opt2", None) is not None:
+            vias += ["optimizer2", "optimizer2"]
         via = rng.choice(vias)
         if via == "tensor":
             k = rng.randint(1, len(leaves))
@@ -498,8 +512,13 @@ class HistSim(Sim):
         O = st.SG.optim
         ps = [st.T[i] for i in ids]
         kind = ev.get("kind", "SGD")
-        st.opt = st.must("C04.reset_raises", "constructing an optimizer over the leaves (some of them frozen)",
-                         lambda: O.SGD(ps, lr=0.1) if kind == "SGD" else O.SGD(ps, lr=0.1, momentum=0.9) if kind == "SGDm" else O.Adam(ps, lr=0.01))
+        opt = st.must("C04.reset_raises", "constructing an optimizer over the leaves (some of them frozen)",
+                      lambda: O.SGD(ps, lr=0.1) if kind == "SGD" else O.SGD(ps, lr=0.1, momentum=0.9) if kind == "SGDm" else O.Adam(ps, lr=0.01))
+        if ev.get("second"):
+            st.opt2, st.opt2_ids = opt, ids
+            st.probes["second_optimizer_over_same_layout"] += 1
+            return
+        st.opt = opt
         st.opt_ids = ids
 
     def _ev_prune(self, st, ev):
@@ -524,7 +543,7 @@ class HistSim(Sim):
             del st.meta[j]
             st.retained.discard(j)
         used = consumers()
-        keep = set(st.module_ids) | set(getattr(st, "opt_ids", []) or [])
+        keep = set(st.module_ids) | set(getattr(st, "opt_ids", []) or []) | set(getattr(st, "opt2_ids", []) or [])
         leaves = sorted(i for i, m in st.meta.items() if m["kind"] == "leaf")
         for j in leaves:
             if len([i for i, m in st.meta.items() if m["kind"] == "leaf"]) <= 10:
@@ -715,6 +734,12 @@ class HistSim(Sim):
                 return
             st.must("C04.reset_raises", "Module.zero_grad()", st.module.zero_grad)
             reset = [i for i in st.module_ids if st.meta[i]["rg"]]
+        elif via == "optimizer2":
+            if getattr(st, "opt2", None) is None:
+                st.skipped += 1
+                return
+            st.must("C04.reset_raises", "Optimizer.zero_grad() of the second optimizer", st.opt2.zero_grad)
+            reset = [i for i in st.opt2_ids if i in st.T]
         else:
             if st.opt is None:
                 st.skipped += 1
